@@ -442,7 +442,7 @@ type SharedTreeCase struct {
 
 var c11Shared = core.Mon(c11, "shared-call-site", func(w *core.W, c *SharedTreeCase) {
 	first := &BridgeCase{Sig: c.SigA, Args: c.Args, Spread: c.Spread}
-	sc, err := formula.ParseSourceCode([]byte(first.source()))
+	sc, err := hostParse([]byte(first.source()), true)
 	if err != nil {
 		w.Skip("unparsable-call-shape")
 		return
@@ -485,7 +485,7 @@ func runBridge(w *core.W, mon string, c *BridgeCase, sc *formula.SourceCode) {
 	src := c.source()
 	if sc == nil {
 		var err error
-		sc, err = formula.ParseSourceCode([]byte(src))
+		sc, err = hostParse([]byte(src), true)
 		if err != nil {
 			w.Skip("unparsable-call-shape")
 			return
